@@ -45,5 +45,8 @@ where
     P: AsRef<Path>,
 {
     let mut writer = File::create(dst).map(Writer::new)?;
-    writer.write_index(index)
+    writer.write_index(index)?;
+    // Dropping the writer would finish the gzip stream but discard any error.
+    writer.finish()?;
+    Ok(())
 }
